@@ -17,7 +17,8 @@ def generic_amp(lo=0.05, hi=5.0):
 
 
 def amp(nonzero=False):
-    a = st.one_of(grid_amp(), generic_amp())
+    # explicit zeros (a preset must treat a vanishing parameter like any other value), exact grid values, generic doubles
+    a = st.one_of(st.just(0.0), grid_amp(), grid_amp(), grid_amp(), grid_amp(), generic_amp(), generic_amp(), generic_amp(), generic_amp())
     if nonzero:
         a = a.filter(lambda x: abs(x) > 1e-9)
     return a
@@ -159,9 +160,17 @@ def preset_piece(draw, sites, cplx, allow=None):
         if not c:
             return [P("coulombS", lab, A(), A())]
         lab = draw(st.sampled_from(c))[0]
+        # special relations between the Kanamori parameters (U'=0, U'=J, U'=U-2J, U=2J) in a quarter of the calls
+        rel = draw(st.sampled_from(["free", "free", "free", "special"]))
         if name == "coulombP4":
-            return [P("coulombP4", lab, A(), A(), A(), A())]
-        return [P("coulombP3", lab, A(), A(), A())]
+            U = A(); J = A(); Up = A()
+            if rel == "special":
+                Up = draw(st.sampled_from([[0.0, 0.0], J, [U[0] - 2 * J[0], 0.0]]))
+            return [P("coulombP4", lab, U, Up, J, A())]
+        U = A(); J = A()
+        if rel == "special":
+            U = [2 * J[0], 0.0]
+        return [P("coulombP3", lab, U, J, A())]
     if name == "magnetization":
         c = [s for s in sites if s[2] == 2]
         if not c:
